@@ -30,7 +30,7 @@ import numpy as np
 import sympy as sp
 
 from ..core import norm, calls_in, kwarg, AnalysisError, walk_no_nested
-from ..symx import SymEval, Path, SymObj, PyStub, Text, Closure, symarray, is_zero, equal, Opaque, WouldRaise, module_aliases, arr, is_arr
+from ..symx import ToleranceLog, SymEval, Path, SymObj, PyStub, Text, Closure, symarray, is_zero, equal, Opaque, WouldRaise, module_aliases, arr, is_arr
 from .. import apicompat, dims
 from ..iomodel import (UnitKey, UnitExpr, StyleMod, UC, DF, Col, indexstr, unit_factor, style_keys, LAMMPS_ATOMS, LAMMPS_VELOCITIES, COLUMN_QUANTITY,
                        UNITLESS_COLUMNS, UNJUDGED_COLUMNS, SCALED_COLUMNS)
@@ -398,6 +398,8 @@ def data_file(ctx):
         ev.globals = {'style': sm, 'uc': uc, 'dump_table': _tabstub(rec, 'dump_table'), 'OrderedDict': dict, 'open': _open(rec),
                       'atoms_prop_info': lambda a='atomic', u='metal': ('atoms_prop_info', a, u),
                       'velocities_prop_info': lambda a='atomic', u='metal': ('velocities_prop_info', a, u)}
+        tol = ToleranceLog()
+        ev.np_override = tol.overrides()
         try:
             paths = ev.run_fn(fn, [system], dict(f=sc['f'], atom_style=sc['atom_style'], units=sc['units'], float_format=FF, potential=pot))
         except WouldRaise as e:
@@ -405,6 +407,10 @@ def data_file(ctx):
             continue
         except Opaque as e:
             raise AnalysisError('atom_data.dump (%s): %s' % (tag, e))
+        finally:
+            bad = tol.absolute_on_scaled()
+            ctx.ob('DATA-FILE', loc, '%s: no quantity in file units (bounds, tilts: lengths whose size depends on the unit style) is compared with zero through an absolute tolerance; '
+                   'a tilt of 1e-10 (metres) is a tilt' % tag, not bad, '; '.join('isclose/allclose(%s, 0) depends on %s' % (str(a)[:60], v) for a, v, _k in bad), node=fn, key=tag + ' exact zero tests')
         live = [p for p in paths if p.done == 'return']
         ctx.need(len(live) == 1, 'atom_data.dump does not reduce to one path (%s): %d' % (tag, len(live)))
         ret = live[0].ret
@@ -508,6 +514,8 @@ def dump_file(ctx):
         kw = dict(lammps_units='UQ', float_format=FF)
         if not sc.get('default'):
             kw['prop_info'] = [{'prop_name': 'given'}]
+        tol = ToleranceLog()
+        ev.np_override = tol.overrides()
         try:
             paths = ev.run_fn(fn, [system], kw)
         except WouldRaise as e:
@@ -515,6 +523,10 @@ def dump_file(ctx):
             continue
         except Opaque as e:
             raise AnalysisError('atom_dump.dump (%s): %s' % (tag, e))
+        finally:
+            bad = tol.absolute_on_scaled()
+            ctx.ob('DUMP-FILE', loc, '%s: no quantity in file units (bounds, tilts) is compared with zero through an absolute tolerance; the header form follows the exact tilts' % tag, not bad,
+                   '; '.join('isclose/allclose(%s, 0) depends on %s' % (str(a)[:60], v) for a, v, _k in bad), node=fn, key=tag + ' exact zero tests')
         live = [p for p in paths if p.done == 'return']
         ctx.need(len(live) == 1, 'atom_dump.dump does not reduce to one path (%s)' % tag)
         content = live[0].ret
@@ -595,7 +607,7 @@ def _pandas_version():
     return (int(v[0]), int(v[1]))
 
 
-def _run_table(ctx, rel, fname, prop_info, system, extra=None, stub_ppi=True):
+def _run_table(ctx, rel, fname, prop_info, system, extra=None, stub_ppi=True, return_prop_info=False):
     fn = ctx.fn(rel, fname)
     ev = SymEval(module_aliases(ctx.mod(rel)))
     ev.text_mode = True
@@ -607,6 +619,8 @@ def _run_table(ctx, rel, fname, prop_info, system, extra=None, stub_ppi=True):
     kw = dict(prop_info=prop_info, float_format=FF)
     if extra is not None:
         kw['extra'] = extra
+    if return_prop_info:
+        kw['return_prop_info'] = True
     paths = ev.run_fn(fn, [system], kw)
     live = [p for p in paths if p.done == 'return']
     if len(live) != 1:
@@ -691,6 +705,31 @@ def tables(ctx):
             stats['calls_resolved'], stats['df_method_calls']), not issues, '; '.join(i.what for i in issues)[:400], node=issues[0].node if issues else None, file=rel, key='api ' + rel)
     # column resolvers: table_name / shape defaults
     resolvers(ctx)
+    returned_table(ctx)
+
+
+def returned_table(ctx, rule='TABLE'):
+    """the table format carries no column meaning: the conversion table the writer hands back is what the reader is given, so it must describe the columns as written --
+    same properties, column names, shapes and units, box-relative columns still marked 'scaled'"""
+    UL = UnitKey('UQ', 'length')
+    fn = ctx.fn(TD, 'dump')
+    loc = TD + '::dump'
+    for tag, punit in (('cartesian', UL), ('scaled', 'scaled')):
+        PI = [{'prop_name': 'atype', 'table_name': ['type'], 'shape': (), 'unit': None, 'dtype': None},
+              {'prop_name': 'pos', 'table_name': ['x', 'y', 'z'], 'shape': (3,), 'unit': punit, 'dtype': None},
+              {'prop_name': 'charge', 'table_name': ['q'], 'shape': (), 'unit': None, 'dtype': None}]
+        try:
+            ret, _uc = _run_table(ctx, TD, 'dump', [dict(d) for d in PI], TabSys(own_id=False), return_prop_info=True)
+        except WouldRaise as e:
+            ctx.ob(rule, loc, '%s positions, conversion table requested: the writer runs to completion' % tag, False, str(e), node=fn, key='returned table runs ' + tag)
+            continue
+        except Opaque as e:
+            raise AnalysisError('%s (returned table, %s): %s' % (loc, tag, e))
+        ok = isinstance(ret, tuple) and len(ret) == 2 and isinstance(ret[1], list) and len(ret[1]) == len(PI)
+        got = [(d.get('prop_name'), list(d.get('table_name', [])), tuple(d.get('shape', ())), d.get('unit')) for d in ret[1]] if ok else None
+        want = [(d['prop_name'], d['table_name'], d['shape'], d['unit']) for d in PI]
+        ctx.ob(rule, loc, '%s positions: the returned conversion table names the written columns with their shapes and units%s' % (tag, ' (box-relative columns are still marked scaled)' if punit == 'scaled' else ''),
+               bool(ok) and got == want, 'returned %s' % (got,), node=fn, key='returned table ' + tag)
 
 
 def resolvers(ctx):
